@@ -200,6 +200,7 @@ fn add(a: &mut Counters, b: &Counters) {
     a.crash_then_same_worker_reused += b.crash_then_same_worker_reused;
     a.budget_fired += b.budget_fired;
     a.pure_comment_tasks_in_shared_store += b.pure_comment_tasks_in_shared_store;
+    a.blocked_handoffs += b.blocked_handoffs;
 }
 
 pub fn counters_json(c: &Counters) -> serde_json::Value {
@@ -211,6 +212,7 @@ pub fn counters_json(c: &Counters) -> serde_json::Value {
         "noise_marks": c.noise_marks, "diag_while_other_parked": c.diag_while_other_parked,
         "crash_then_same_worker_reused": c.crash_then_same_worker_reused, "budget_fired": c.budget_fired,
         "pure_comment_tasks_in_shared_store": c.pure_comment_tasks_in_shared_store,
+        "blocked_handoffs": c.blocked_handoffs,
     })
 }
 
@@ -219,6 +221,8 @@ pub fn describe(plan: &Plan, trace: &[Action]) -> serde_json::Value {
     json!({
         "stratum": plan.stratum, "run": plan.run, "workers": plan.workers,
         "globals": format!("{:?}", plan.globals), "comments_store": format!("{:?}", plan.store),
+        "options": if plan.opts_per_task { "deserialised per file, dropped after it" } else { "deserialised once, cloned per file" },
+        "worker_stack_kib": if plan.stack_kib.is_empty() { json!("65536 (all)") } else { json!(plan.stack_kib) },
         "strategy": match &plan.strategy { Strategy::Random{stay} => format!("random(stay={stay}%)"), Strategy::Pct{change_points,..} => format!("pct(d={})", change_points.len()), Strategy::Script => "script".into() },
         "tasks": plan.tasks.iter().map(|t| json!({"task": t.key(), "crash_at": t.crash_at, "emitter_crash_at": t.emitter_crash_at, "noise": if t.noise.is_zero() { json!(null) } else { serde_json::to_value(&t.noise).unwrap() }})).collect::<Vec<_>>(),
         "first_decisions": enc.iter().take(40).collect::<Vec<_>>(),
@@ -288,6 +292,8 @@ pub fn child_main(a: ChildArgs) -> i32 {
             max_restarts: 0,
             key_seed,
             sched_seed: 0,
+            opts_per_task: false,
+            stack_kib: vec![],
             tasks: vec![t.clone()],
         };
         plan.tasks[0].crash_at = None;
@@ -366,6 +372,9 @@ pub fn child_main(a: ChildArgs) -> i32 {
                 }
                 Err(_) => {
                     st.deaths += 1;
+                    // the run died before it could hand back its decisions: what is known is the
+                    // script it was given (systematic strata); the rest is re-drawn from the plan's PRNG
+                    trace = script.clone();
                 }
             }
             for v in violations {
@@ -380,14 +389,18 @@ pub fn child_main(a: ChildArgs) -> i32 {
                 }
                 seen_sigs.insert(sig);
                 minimised += 1;
-                match minimise::minimise(&plan, &trace, &v, &mut refs) {
+                match minimise::minimise(&plan, &trace, &v, &mut refs, script_opt) {
                     Ok(f) => {
                         st.minimise_execs += f.executions as u64;
                         let rf = ReplayFile {
                             property: "C08".into(),
-                            note: format!("found by stratum `{}` run {} (seed {}), minimised from {} tasks / {} decisions with {} executions", stratum, run, a.seed, plan.tasks.len(), trace.len(), f.executions),
+                            note: if f.unminimised {
+                                format!("found by stratum `{}` run {} (seed {}); reported as found, not minimised: the violation vanishes under any change of the plan (it depends on memory layout)", stratum, run, a.seed)
+                            } else {
+                                format!("found by stratum `{}` run {} (seed {}), minimised from {} tasks / {} decisions with {} executions", stratum, run, a.seed, plan.tasks.len(), trace.len(), f.executions)
+                            },
                             plan: f.plan.clone(),
-                            script: if f.plan.strategy == Strategy::Script { Some(encode_script(&f.script)) } else { None },
+                            script: if f.plan.strategy == Strategy::Script || (f.unminimised && !f.script.is_empty()) { Some(encode_script(&f.script)) } else { None },
                             expected: Some(f.violation.expected()),
                             detail: f.violation.detail.clone(),
                         };
